@@ -234,6 +234,32 @@ theorem C04_init_guard_is_source :
     ∀ p ∈ Generated.lenGuardSuper, p.1 = p.2 := by
   decide
 
+/-- **`TraitListObject.step` is what the source says**: the translated overrides
+of `TraitListObject` (`Generated.traitListObjectProg`), run with `super()` bound
+to the translated `TraitList` methods, give exactly the model's result — for
+every `minlen`/`maxlen`, validator, list and operation; where the model
+rejects, the interpreted source raises the same exception with the list
+unchanged and nobody notified. -/
+theorem C04_step_is_source (c : LenCfg) (E : Env α) (l : List α) (op : Op α) :
+    PyL.runTraitListObjectOp Generated.listHelpers Generated.traitListProg Generated.traitListObjectProg c E l op
+      = PyL.summaryOfStep l (TraitListObject.step c E l op) :=
+  Lemmas.PyL.tlo_step_is_source c E l op
+
+/-- The invariant, stated of the interpreted source directly: a call that
+returns leaves a list satisfying `Inv`; a call that raises leaves the list
+untouched and fires nothing. -/
+theorem C04_source_inv (c : LenCfg) (E : Env α) (hs : SortOk E) (l : List α) (op : Op α) (h : Inv c E l) :
+    match PyL.runTraitListObjectOp Generated.listHelpers Generated.traitListProg Generated.traitListObjectProg
+        c E l op with
+    | .done items _ _ => Inv c E items
+    | .raised _ items evs => items = l ∧ evs = [] := by
+  rw [C04_step_is_source]
+  cases hst : TraitListObject.step c E l op with
+  | error e => simp [PyL.summaryOfStep]
+  | ok o =>
+    simp only [PyL.summaryOfStep]
+    exact C04_list_step_inv c E hs l op o h hst
+
 /-! ### Nested containers -/
 
 /-- The invariant for any element predicate `P` that every validator output
